@@ -123,7 +123,12 @@ def run(ctx):
             m = re.search(r"def loweredEntries : List Nat := \[([^\]]*)\]", p.stdout)
             low = [int(x) for x in m.group(1).split(",") if x.strip()] if m else []
             by_occ = {r.get("occ"): r for r in table["rows"]}
+            mi = re.search(r"def icallSites : Nat := (\d+)\ndef icallSitesUsingRestriction : Nat := (\d+)", p.stdout)
             lockfacts = {"unjustified_rows": len(unj), "lowered_entries": len(low),
+                         "interface_call_candidate_sites": int(mi.group(1)) if mi else None,
+                         "of_which_use_the_icall_restriction": int(mi.group(2)) if mi else None,
+                         "skeletons": p.stdout.count("(.node (some [") // 2 if False else len(re.findall(r"^def sk\d+ : Cmd", open(os.path.join(kv.LEAN, "KafkaVerif", "Gen", "Skeletons.lean")).read(), re.M)),
+                         "annotated_assumptions_asm": open(os.path.join(kv.LEAN, "KafkaVerif", "Gen", "Skeletons.lean")).read().count("(.asm ") // 2,
                          "unjustified_sites": sorted({"%s:%d %s" % (by_occ[o]["file"], by_occ[o]["line"], by_occ[o]["func"]) for o in unj if o in by_occ})[:80]}
         else:
             broken.append({"kind": "obligation", "name": "oracle_c10 lockfacts failed", "detail": (p.stdout[-300:] + p.stderr[-800:])})
